@@ -194,46 +194,34 @@ MUTANTS = [
          what="Deny in the transaction loop's Q arm no longer stops the query",
          old='''                                    Ok(PluginOutput::Deny(error)) => {
                                         error_response(&mut self.write, &error).await?;
+
+                                        if self.transaction_mode
+                                            && !server.in_transaction()
+                                            && !server.in_copy_mode()
+                                        {
+                                            break;
+                                        }
+
                                         continue;
                                     }
 
-                                    Ok(PluginOutput::Intercept(result)) => {
-                                        write_all(&mut self.write, result).await?;
-                                        continue;
-                                    }
-
-                                    _ => (),
-                                };
-                            }
-                        }
-
-                        debug!("Sending query to server");''',
+                                    Ok(PluginOutput::Intercept(result)) => {''',
          new='''                                    Ok(PluginOutput::Deny(error)) => {
                                         error_response(&mut self.write, &error).await?;
                                     }
 
-                                    Ok(PluginOutput::Intercept(result)) => {
-                                        write_all(&mut self.write, result).await?;
-                                        continue;
-                                    }
-
-                                    _ => (),
-                                };
-                            }
-                        }
-
-                        debug!("Sending query to server");'''),
+                                    Ok(PluginOutput::Intercept(result)) => {'''),
     dict(id="c19-no-buffer-reset", prop="C19", file="src/client.rs", expect="C19-R1",
          what="pending Deny at Sync does not clear the buffered batch",
          old='''                                error_response(&mut self.write, &error).await?;
                                 plugin_output = None;
                                 self.forget_buffered_prepared_statements();
                                 self.reset_buffered_state();
-                                continue;''',
+''',
          new='''                                error_response(&mut self.write, &error).await?;
                                 plugin_output = None;
                                 self.forget_buffered_prepared_statements();
-                                continue;'''),
+'''),
     dict(id="c19-overwrite-again", prop="C19", file="src/client.rs", expect="C19-R2",
          what="idle-loop Parse arm overwrites the pending verdict again",
          old='''                                    let _ = query_router
@@ -1104,7 +1092,7 @@ pub struct ServerPool {'''),
             plugins.validate()?;
         }
 
-        // Validation for auth_query feature""", new="""        // Validation for auth_query feature"""),
+        // A client that asks for one of these databases gets the admin console""", new="""        // A client that asks for one of these databases gets the admin console"""),
     dict(id="c16-rebuilt-pool-fresh-notify", prop="C16", file="src/pool.rs", expect="C16-R2",
          what="a rebuilt pool gets a fresh Notify (half of D62 again)",
          old="""                    paused_waiter: match old_pool_ref {
@@ -1282,6 +1270,45 @@ where
                                 self.forget_buffered_prepared_statements();
                                 self.reset_buffered_state();
 """),
+    dict(id="c17-admin-read-restarted-after-the-broadcast", prop="C17", file="src/client.rs", expect="C17-R1",
+         what="the idle loop selects over read_message again and the admin branch restarts the read (D85 again)",
+         old="""            tokio::select! {
+                _ = self.shutdown.recv() => {
+                    if !self.admin {
+                        error_response_terminal(
+                            &mut self.write,
+                            "terminating connection due to administrator command"
+                        ).await?;
+
+                        self.stats.disconnect();
+                        return Ok(());
+                    }
+
+                    // Admin clients ignore shutdown.
+                },
+                _ = self.read.fill_buf() => (),
+            };
+
+            let message = read_message(&mut self.read).await?;""",
+         new="""            let message = tokio::select! {
+                _ = self.shutdown.recv() => {
+                    if !self.admin {
+                        error_response_terminal(
+                            &mut self.write,
+                            "terminating connection due to administrator command"
+                        ).await?;
+
+                        self.stats.disconnect();
+                        return Ok(());
+                    }
+
+                    // Admin clients ignore shutdown.
+                    else {
+                        read_message(&mut self.read).await?
+                    }
+                },
+                message_result = read_message(&mut self.read) => message_result?
+            };"""),
     dict(id="c17-denied-query-keeps-the-server", prop="C17", file="src/client.rs", expect="C17-R1",
          what="the Query arm of the transaction loop goes on waiting after a Deny without the release test (D83 again)",
          old="""                                        error_response(&mut self.write, &error).await?;
